@@ -1,4 +1,5 @@
 mod common;
+mod exprref;
 mod geom;
 mod props;
 mod xmlref;
